@@ -6,7 +6,7 @@ namespace JanetModel.Ev
 /-- configuration of the current source tree -/
 abbrev currentCfg : Cfg :=
   ⟨Gen.Ev.pushBlocksStrict, Gen.Ev.choiceReadyStrict, Gen.Ev.choiceGiveSeesReader,
-   Gen.Ev.popSkipsStaleWriter, Gen.Ev.closeChecksSched, Gen.Ev.resumeBumps⟩
+   Gen.Ev.popSkipsStaleWriter, Gen.Ev.closeChecksSched, Gen.Ev.resumeBumps, Gen.Ev.supervisorSkipsClosed⟩
 
 /-- JANET_MAX_Q_CAPACITY -/
 abbrev maxQCapacity : Nat := Gen.Ev.maxQCapacity
